@@ -80,6 +80,17 @@ class Site:
         return self.caller.where(self.term) if self.term is not None else self.caller.where()
 
 
+# Foreign traits through which library code drives user code when instantiated with a local type.  Derivable value traits
+# (Clone, Debug, PartialEq, Default, From ...) are left out on purpose: every type mention would add edges to them, and their
+# implementations here are derived or trivially pure.
+GENERIC_CALLBACK_TRAITS = {
+    "core::iter::traits::iterator::Iterator", "core::iter::traits::double_ended::DoubleEndedIterator",
+    "core::iter::traits::exact_size::ExactSizeIterator", "core::iter::traits::collect::IntoIterator",
+    "std::io::Write", "std::io::Read", "std::io::BufRead", "std::io::Seek", "core::fmt::Write", "core::fmt::Display",
+    "core::cmp::Ord", "core::cmp::PartialOrd", "core::hash::Hash",
+}
+
+
 class CallGraph:
     def __init__(self, prog):
         self.prog = prog
@@ -164,6 +175,11 @@ class CallGraph:
                     self._add(fn, bb, t, c["path"], "ext")
                 continue
             tgt = c["rpath"]
+            if tgt not in prog.fns:
+                # generic callbacks: a library function instantiated with a local type may call that type's implementations of
+                # foreign traits (collect() on an adaptor chain drives the local Iterator::next; sort() the local Ord::cmp ...)
+                for tg in self._generic_callbacks(c):
+                    self._add(fn, bb, t, tg, "generic")
             if c["trait"] in FN_TRAITS or (c["trait"] or "").startswith("core::ops::function::"):
                 if c.get("self_closure"):
                     tgt = c["self_closure"]
@@ -175,6 +191,33 @@ class CallGraph:
             for (tg, vb, vi) in tgs:
                 if (tg, vb, vi) not in located:
                     self._add(fn, vb, None, tg, "value")
+
+    def _generic_callbacks(self, c):
+        prog = self.prog
+        idx = prog.__dict__.get("_foreign_trait_impls")
+        if idx is None:
+            idx = {}
+            local = tuple(cr + "::" for cr in {f.crate for f in prog.fns.values()})
+            for im in prog.impls:
+                tr = im.get("trait")
+                if tr and not tr.startswith(local) and im.get("self_adt") and tr in GENERIC_CALLBACK_TRAITS:
+                    idx.setdefault(im["self_adt"], []).extend(it["id"] for it in im["items"] if it["id"] in prog.fns)
+            prog.__dict__["_foreign_trait_impls"] = idx
+        if not idx:
+            return []
+        text = " ".join([c.get("self_ty") or ""] + list(c.get("fnargs") or []))
+        out = []
+        for adt, items in idx.items():
+            if adt in text:
+                # whole-word match: the ADT path followed by a non-identifier character
+                i = text.find(adt)
+                while i != -1:
+                    j = i + len(adt)
+                    if j >= len(text) or not (text[j].isalnum() or text[j] == "_"):
+                        out.extend(items)
+                        break
+                    i = text.find(adt, j)
+        return out
 
     def _add(self, fn, bb, term, target, kind):
         if target in self.prog.fns:
